@@ -247,6 +247,9 @@ class Checker:
         jobs = []
         for s in subs:
             ts = G.infer_ty(s, decls)
+            rt = G.raw_ty(s, decls)
+            if (rt == "aint" and t in (G.I32, G.U32, G.F32)) or (rt == "afloat" and t == G.F32):
+                ts = t                                     # a purely abstract sub-expression is converted to the target type
             jobs.append({"decls": [enc_decl(d) for d in prefix_decls] + [{"name": "q_", "id": None, "ty": ts, "init": s}],
                          "consts": p["vmap"]})
         outs = self.query(jobs)
@@ -524,10 +527,8 @@ class Checker:
                 all_ok = False
                 if s[1][0] != impl_vals[i][0]:
                     key = ("override-type-infer:%s" % ("bool-literal" if d["init"][0] == 0 else "expression")) if d["ty"] is None else "override-type"
-                elif found and G.f64frombits(bits) == G.f64frombits(bits):
-                    key = "override-value:%s:%s" % (G.TYNAME[t], value_class(t, bits))
                 elif found:
-                    key = "override-value:%s:nan" % G.TYNAME[t]
+                    key = "override-value:%s:%s" % (G.TYNAME[t], value_class(t, bits))
                 else:
                     cls = self.blame_expr(case, decls[:i], d["init"], t)
                     if cls is None:
@@ -630,7 +631,7 @@ class Checker:
             if got != G.norm_lit(s[1]):
                 if not p["vmap"]:
                     key = "msl-override-default:" + msl_default_class(d["init"])
-                elif found:
+                elif found and value_class(t, bits) != "nan":
                     key = "msl-override-value:%s:%s" % (G.TYNAME[t], value_class(t, bits))
                 else:
                     cls = self.blame_expr(case, decls[:i], d["init"], t, which="model_msl")
